@@ -8,6 +8,7 @@ of `checks/c16.py` decides on every run that "the real code raises ⇔ the model
 -/
 import NetqasmVerif.Lemmas.Table
 import NetqasmVerif.Props.C01
+import NetqasmVerif.Model.Reject
 namespace NQ.C16
 open NQ
 
@@ -208,5 +209,53 @@ example : (encodeInstr Gen.nvRows ⟨"nv.RotXInstruction", [.reg ⟨2, 15⟩, .i
     = true := by decide +kernel
 example : (encodeSub Gen.vanillaRows ⟨255, 255, 65535,
     [⟨"core.SetInstruction", [.reg ⟨0, 15⟩, .imm 2147483647]⟩]⟩).isSome = true := by decide +kernel
+
+/-! The SDK route: rotation numerators / denominators given to `rot_X/Y/Z`, with the
+hardware-mode normalisation `n·2^(4−d)`, and the metadata as Python integers. -/
+
+/-- Whatever `n`, `d` the SDK accepts: if the (normalised) numerator or the denominator
+does not fit a byte, flushing raises — for every rotation class whose row has the shape
+`reg imm8 imm8`, in any table. Covers `rot_X(n=300, d=4)` and, in hardware mode,
+`rot_X(n=16, d=0)` (16·2⁴ = 256). -/
+theorem sdk_rotation_rejects (T : Table) (hw : Bool) (cls : String) (q n d : Int) (row : Row)
+    (hrow : rowOf T cls = some row) (hshape : row.shape = [.reg, .imm8, .imm8])
+    (hbig : if hw then 255 < n * ((2 ^ (4 - d).toNat : Nat) : Int) else (255 < n ∨ 255 < d)) :
+    encodeOptInstr T (sdkRot hw cls q n d) = none := by
+  unfold sdkRot
+  split
+  · rfl
+  · cases hw
+    · simp only [Bool.false_eq_true, if_false] at hbig ⊢
+      simp only [encodeOptInstr]
+      rcases hbig with h | h
+      · exact encodeInstr_rejects T _ row hrow 1 .imm8 (.imm n) (by rw [hshape]; rfl) rfl (Or.inr h)
+      · exact encodeInstr_rejects T _ row hrow 2 .imm8 (.imm d) (by rw [hshape]; rfl) rfl (Or.inr h)
+    · simp only [if_true] at hbig ⊢
+      split
+      · simp only [encodeOptInstr]
+        exact encodeInstr_rejects T _ row hrow 1 .imm8 _ (by rw [hshape]; rfl) rfl (Or.inr hbig)
+      · rfl
+
+/-- app id / version numbers as arbitrary Python integers: anything outside
+0..65535 / 0..255 is rejected -/
+theorem encodeSubZ_rejects (T : Table) (v0 v1 app : Int) (is : List Instr)
+    (h : app < 0 ∨ 65535 < app ∨ v0 < 0 ∨ 255 < v0 ∨ v1 < 0 ∨ 255 < v1) :
+    encodeSubZ T v0 v1 app is = none := by
+  unfold encodeSubZ
+  split
+  · rfl
+  · apply encodeSub_rejects
+    right
+    simp only
+    omega
+
+-- the rows the SDK theorem is about exist with that shape
+example : rowOf Gen.vanillaRows "vanilla.RotXInstruction" =
+    some ⟨"vanilla.RotXInstruction", 27, "rot_x", [.reg, .imm8, .imm8]⟩ := by decide +kernel
+-- hardware mode: n = 16, d = 0 normalises to 256 and is rejected; n = 15 encodes
+example : encodeOptInstr Gen.nvRows (sdkRot true "nv.RotXInstruction" 0 16 0) = none := by
+  decide +kernel
+example : (encodeOptInstr Gen.nvRows (sdkRot true "nv.RotXInstruction" 0 15 0)).isSome = true := by
+  decide +kernel
 
 end NQ.C16
